@@ -114,10 +114,59 @@ let check (cap : z option) (bw : bool) (line : string) : string =
     let cfg = { cfg_records = records; cfg_recv_cap = cap; cfg_builtin_wins = bw; cfg_conn = z_of_int !conn } in
     let tr = List.rev !events in
     let fin = List.rev !finals in
+    (* Multi-thread runtime only (case starts with "F <n>", n > 0): the harness logs L when the lookup is CALLED,
+       the client's cache check happens somewhere between that call and the lookup's first own event.  An
+       answer for the same client that lands in between makes a later-started lookup return from the cache
+       without a query; since the cache only grows, such a lookup may be linearised right before its R.  So when
+       the first disabled label is an R whose L has an A of the same client between L and R, move that L
+       directly in front of the R and validate again (at most once per lookup). *)
+    let multi = match Conv.tokens case with "F" :: n :: _ -> (try int_of_string n > 0 with _ -> false) | _ -> false in
+    let first_disabled t =
+      let rec go st i = function
+        | [] -> None
+        | e :: r -> ( match step cfg st e with Some st' -> go st' (i + 1) r | None -> Some (i, e))
+      in
+      go init_state 0 t
+    in
+    let relinearise t =
+      match first_disabled t with
+      | Some (i, EvR (c, h, _, _)) -> (
+          let arr = Array.of_list t in
+          let j = ref (-1) in
+          Array.iteri (fun k e -> match e with EvL (c', h', _) when c' = c && h' = h && k < i -> j := k | _ -> ()) arr;
+          if !j < 0 then None
+          else
+            let has_a = ref false in
+            for k = !j + 1 to i - 1 do
+              match arr.(k) with EvA (c', _, _) when c' = c -> has_a := true | _ -> ()
+            done;
+            if not !has_a then None
+            else
+              let l = arr.(!j) in
+              let out = ref [] in
+              Array.iteri (fun k e -> if k = !j then () else begin if k = i then out := l :: !out; out := e :: !out end) arr;
+              Some (List.rev !out))
+      | _ -> None
+    in
+    let relin = ref 0 in
+    let tr =
+      if not multi then tr
+      else begin
+        let cur = ref tr in
+        let continue = ref true in
+        while !continue && !relin < 64 && not (validate cfg !cur en fin) do
+          match relinearise !cur with
+          | Some t' -> cur := t'; incr relin
+          | None -> continue := false
+        done;
+        !cur
+      end
+    in
     if validate cfg tr en fin then
-      Printf.sprintf "ACCEPT %s events=%d names_ok=%b records_ok=%b"
+      Printf.sprintf "ACCEPT %s events=%d names_ok=%b records_ok=%b%s"
         (match en with EndDone -> "done" | EndCrash -> "crash" | EndHang -> "hang")
         (List.length tr) (names_okb tr) (records_ok cfg)
+        (if !relin > 0 then Printf.sprintf " relinearised=%d" !relin else "")
     else begin
       (* locate the first label that is not enabled *)
       let rec go st i = function
